@@ -210,14 +210,17 @@ impl DualAvg {
 /// implementation the module cites (halve first while the first step is not finite, start the
 /// doubling from eps/2 but test with the un-halved step); otherwise Algorithm 4 of the paper.
 /// Returns (eps0, smallest decision margin, whether a non-finite energy change was met).
-pub fn find_reasonable_epsilon<D: Density>(d: &D, x: &[f64], p: &[f64], python_variant: bool) -> (f64, f64, bool) {
+/// `range`: magnitudes beyond it (log-density, gradient entries, kinetic energy, positions of a
+/// trial step) overflow in the arithmetic of the backend under test and count as non-finite.
+pub fn find_reasonable_epsilon<D: Density>(d: &D, x: &[f64], p: &[f64], python_variant: bool, range: f64) -> (f64, f64, bool) {
     let s0 = state0(d, x, p);
     let mut eps = 1.0;
     let nonfinite = std::cell::Cell::new(false);
     let lap = |e: f64| -> f64 {
         let s = leap(d, &s0, e);
         let v = s.joint - s0.joint;
-        if !v.is_finite() {
+        let big = s.lp.abs().max(s.g.iter().fold(0.0f64, |m, v| m.max(v.abs()))).max(s.p.iter().map(|v| v * v).sum::<f64>()).max(s.x.iter().fold(0.0f64, |m, v| m.max(v.abs())));
+        if !v.is_finite() || !(big <= range) {
             nonfinite.set(true);
         }
         v
